@@ -425,6 +425,12 @@ fn field_alphabet(m: &BigUint, seed: u64, tag: &str) -> (Vec<BigUint>, Vec<BigUi
     extreme.push((m >> 1) + 1u32);
     extreme.push(&r256 % m);
     extreme.push((&r256 * &r256) % m);
+    // values whose Montgomery form is the plain integer 1, 2 or m-1 (R^-1, 2 R^-1, -R^-1): a comparison with a plain
+    // constant instead of the Montgomery constant fires exactly on these
+    let rinv = r256.modpow(&(m - 2u32), m);
+    extreme.push(rinv.clone());
+    extreme.push((&rinv * 2u32) % m);
+    extreme.push(m - &rinv);
     extreme.push((BigUint::one() << 255) % m);
     extreme.push((BigUint::one() << 128) - 1u32);
     let mut g = SplitMix::new(seed, tag);
@@ -449,7 +455,7 @@ pub fn run(ctx: &Arc<Ctx>) {
     refmodels::selftest::run(&["sm2"]).unwrap_or_else(|e| ctx.machinery_error(format!("reference self-test failed: {}", e)));
     let pr = sm2::params();
     let (p, n) = (pr.p.clone(), pr.n.clone());
-    ctx.set_rule("fields: operands = all 4-limb values with limbs in {0,1,2^32,2^63,2^64-1} below the modulus, values within 4 of it, 2^256-m, m/2, R, R^2, seeded; unary ops on all, binary ops on all x extreme (thorough: all x all); crafted Montgomery products landing on 0, 1, m-1. Raw u256/u512 helpers on all limb patterns. Group: [j]G for j in {1,2,3,5,n-1,n-2,seeded} x Z in {1,2,p-1,seeded} plus 3 encodings of infinity, all ordered pairs through point_add, triples of different points sharing y (and their negatives) in 3 representations through point_add, all through dbl/neg/affine/validity/SEC1; off-curve triples; scalars {0,1,2,15,16,17,n-1, n+w for w<=300, 2^256-1, every v*16^i, every b*256^i, adjacent-byte sums, seeded} through g_mul / scalar_mul of 3 bases; all 32x255 table entries; all sequences of <= 2 (thorough 3) scalar multiplications over related bases {B, -B, B re-represented, other point} x 2 scalars on one thread. Oracle: affine big-integer arithmetic.");
+    ctx.set_rule("fields: operands = all 4-limb values with limbs in {0,1,2^32,2^63,2^64-1} below the modulus, values within 4 of it, 2^256-m, m/2, R, R^2, seeded; unary ops on all, binary ops on all x extreme (thorough: all x all); crafted Montgomery products landing on 0, 1, m-1. Raw u256/u512 helpers on all limb patterns. Group: [j]G for j in {1,2,3,5,n-1,n-2,seeded} x Z in {1,2,p-1,seeded,R^-1 (stored as plain 1),R} plus 3 encodings of infinity, all ordered pairs through point_add, triples of different points sharing y (and their negatives) in 3 representations through point_add, all through dbl/neg/affine/validity/SEC1; off-curve triples; scalars {0,1,2,15,16,17,n-1, w, n-w, n+w for w<=300, 2^256-1, every v*16^i, every b*256^i, adjacent-byte sums, seeded} through g_mul / scalar_mul of 3 bases; all 32x255 table entries; all sequences of <= 2 (thorough 3) scalar multiplications over related bases {B, -B, B re-represented, other point} x 2 scalars on one thread. Oracle: affine big-integer arithmetic.");
     let mut cases: Vec<Case> = Vec::new();
     let h = |x: &BigUint| hexbig(x);
     // ---- fields
@@ -509,7 +515,9 @@ pub fn run(ctx: &Arc<Ctx>) {
     // ---- group
     let mut g = SplitMix::new(ctx.seed, "c11grp");
     let js: Vec<BigUint> = vec![BigUint::one(), BigUint::from(2u32), BigUint::from(3u32), BigUint::from(5u32), &n - 1u32, &n - 2u32, g.nonzero_below(&n)];
-    let lambdas: Vec<BigUint> = vec![BigUint::one(), BigUint::from(2u32), &p - 1u32, g.nonzero_below(&p)];
+    // Z = R^-1 mod p is stored as the plain limbs [1,0,0,0]; Z = R mod p as R^2 mod p
+    let rinv_p = (BigUint::one() << 256usize).modpow(&(&p - 2u32), &p);
+    let lambdas: Vec<BigUint> = vec![BigUint::one(), BigUint::from(2u32), &p - 1u32, g.nonzero_below(&p), rinv_p.clone(), (BigUint::one() << 256usize) % &p];
     let mut reps: Vec<(BigUint, BigUint)> = Vec::new();
     for j in &js {
         for l in &lambdas {
@@ -574,6 +582,8 @@ pub fn run(ctx: &Arc<Ctx>) {
     }
     scalars.push(("n-1".into(), &n - 1u32));
     for w in 0..=300u32 {
+        scalars.push(("n-w".into(), &n - w));
+        scalars.push(("w".into(), BigUint::from(w)));
         scalars.push(("n+w".into(), &n + w));
     }
     scalars.push(("2^256-1".into(), (BigUint::one() << 256) - 1u32));
